@@ -3,11 +3,12 @@
 (* arithmetic: stepping day by day and month by month.                               *)
 EXTENDS XlCalendar
 CONSTANTS Y0, Y1
-VARIABLES s, k
+VARIABLES s, k, ph
 Lo == Serial(Y0, 1, 1)
 Hi == Serial(Y1, 12, 31)
-Init == s \in Lo..Hi /\ k \in -14..27
-Next == UNCHANGED <<s, k>>
+\* shard idiom: TLC computes initial states in one thread, successors in parallel
+Init == s \in Lo..Hi /\ k = 0 /\ ph = "shard"
+Next == ph = "shard" /\ ph' = "case" /\ s' = s /\ k' \in -14..27
 c == Civil(s)
 \* the day after (y,m,d), by the month-length table only
 NextCivil(x) == IF x.d < DaysInMonth(x.y, x.m) THEN [x EXCEPT !.d = x.d + 1]
